@@ -108,6 +108,42 @@ struct Parser {
       Manifold a = expr();
       return force(a.Translate(vec3(x, y, z)));
     }
+    if (t == "GB") {
+      // GB <kind U|S> <via batch|chain> <n> <G> <nbars> { <pos> x0 y0 z0 x1 y1 z1 }...
+      // n unit cubes at (2*(i%G), 2*(i/G), 0); bar k is inserted so that it ends up at index <pos> of the operand list.
+      // U: n-ary union (BatchBoolean(Add) or a lazy + chain); S: plate minus all operands (BatchBoolean(Subtract) or a lazy - chain)
+      std::string kind, via;
+      int n, G, nb;
+      in >> kind >> via >> n >> G >> nb;
+      std::vector<Manifold> ops;
+      const Manifold unit = Manifold::Cube(vec3(1.0));
+      for (int i = 0; i < n; ++i) ops.push_back(unit.Translate(vec3(2.0 * (i % G), 2.0 * (i / G), 0)));
+      for (int k = 0; k < nb; ++k) {
+        int pos;
+        double a[6];
+        in >> pos;
+        for (auto& x : a) in >> x;
+        Manifold bar = Manifold::Cube(vec3(a[3] - a[0], a[4] - a[1], a[5] - a[2])).Translate(vec3(a[0], a[1], a[2]));
+        pos = std::max(0, std::min<int>(pos, ops.size()));
+        ops.insert(ops.begin() + pos, bar);
+      }
+      int rows = (n + G - 1) / G;
+      Manifold plate = Manifold::Cube(vec3(2.0 * G + 2, 2.0 * rows + 2, 1)).Translate(vec3(-1, -1, 0));
+      if (kind == "U") {
+        if (via == "batch") return Manifold::BatchBoolean(ops, OpType::Add);
+        Manifold r = ops[0];
+        for (size_t i = 1; i < ops.size(); ++i) r = r + ops[i];
+        return r;
+      }
+      if (via == "batch") {
+        std::vector<Manifold> all{plate};
+        all.insert(all.end(), ops.begin(), ops.end());
+        return Manifold::BatchBoolean(all, OpType::Subtract);
+      }
+      Manifold r = plate;
+      for (size_t i = 0; i < ops.size(); ++i) r = r - ops[i];
+      return r;
+    }
     if (t == "BA" || t == "BI" || t == "BS") {
       int n;
       in >> n;
